@@ -237,6 +237,7 @@ CHECKS["C16"] = {
         {"name": "TestRegression_BuilderDedupUnstableSort", "quick": {}, "thorough": {}},
         {"name": "TestRegression_ProtoCompoundNaNAccepted", "quick": {}, "thorough": {}},
         {"name": "TestRegression_InfluxBareIntegerSuffixPanics", "quick": {}, "thorough": {}},
+        {"name": "TestRegression_StopFamilyChannelWhileWriting", "quick": {}, "thorough": {}},
         {"name": "FuzzInfluxParse", "quick": {}, "thorough": {}},
         {"name": "FuzzFlatParse", "quick": {}, "thorough": {}},
     ],
